@@ -15,5 +15,6 @@ CONSTANTS
 CONSTRAINT NoWaiterLeftObs
 CONSTRAINT NoOrphanConnectionObs
 CONSTRAINT NoOrphanTaskObs
+CONSTRAINT NoWaiterLeftAtReturn
 CONSTRAINT ConnectBackCleanObs
 CHECK_DEADLOCK FALSE
